@@ -33,6 +33,10 @@ def gen_case(rng):
     cls = str(rng.choice(objs.SOURCE_CLASSES))
     exact = rng.random() < 0.5
     s = objs.rand_source(rng, cls, path_len=1)
+    if cls == "CylinderSegment" and rng.random() < 0.08:
+        # degenerate but accepted input: opening angle 0 (a body of zero volume - nothing is inside)
+        d = s["dimension"]
+        s["dimension"] = [d[0], d[1], d[2], d[3], d[3]]
     if exact:  # identity pose: special points are exact in floating point
         s["position"] = [[0.0, 0.0, 0.0]]
         s["orientation"] = [[0.0, 0.0, 0.0, 1.0]]
